@@ -85,6 +85,7 @@ func (ctx *Context) Parse(value string) error {
 	ctx.Error = nil
 	ctx.NumOpCount = 0
 	ctx.detailCache = ""
+	ctx.DetailSpans = nil // 旧的过程片段属于上一段文本
 
 	// 开始解析，编译字节码
 	if ctx.Config.ParseExprLimit != 0 {
